@@ -130,6 +130,11 @@ def _xarray(
     for axes, dct in coord_mapping.items():
         if len(dct) == 1:
             name, (array,) = next(iter(dct.items()))
+        elif len(axes) > 1:
+            # A `pandas.MultiIndex` is one-dimensional: N-d arrays stay separate coordinates.
+            for name, (array,) in dct.items():
+                coords[name] = (axes, array)
+            continue
         else:
             names = list(dct.keys())
             name = ":".join(names)
